@@ -608,14 +608,13 @@ class RZILTransformer(Transformer):
                 )
             )
         elif assign.assign_type == AssignmentType.ASSIGN_MOD:
-            assign.set_src(
-                ArithmeticOp(
-                    f"op_MOD",
-                    assign.dest,
-                    assign.src,
-                    ArithmeticType.MOD,
-                )
+            # The right operand is not converted to the target type first (see assignment_expr).
+            a, b = self.cast_operands(
+                a=self.promotion_cast(assign.dest),
+                b=self.promotion_cast(assign.src),
+                immutable_a=False,
             )
+            assign.set_src(ArithmeticOp(f"op_MOD", a, b, ArithmeticType.MOD))
         elif assign.assign_type == AssignmentType.ASSIGN_DIV:
             assign.set_src(
                 ArithmeticOp(
@@ -722,11 +721,9 @@ class RZILTransformer(Transformer):
         b = items[2]
         op_type = ArithmeticType(items[1])
         name = f"op_{op_type.name}"
-        if op_type != ArithmeticType.MOD:
-            # Modular operations don't need matching types.
-            a = self.promotion_cast(a)
-            b = self.promotion_cast(b)
-            a, b = self.cast_operands(a=a, b=b, immutable_a=False)
+        a = self.promotion_cast(a)
+        b = self.promotion_cast(b)
+        a, b = self.cast_operands(a=a, b=b, immutable_a=False)
         return self.add_op(ArithmeticOp(name, a, b, op_type))
 
     def multiplicative_expr(self, items):
@@ -739,11 +736,9 @@ class RZILTransformer(Transformer):
         b = items[2]
         op_type = ArithmeticType(items[1])
         name = f"op_{op_type.name}"
-        if op_type != ArithmeticType.MOD:
-            # Modular operations don't need matching types.
-            a = self.promotion_cast(a)
-            b = self.promotion_cast(b)
-            a, b = self.cast_operands(a=a, b=b, immutable_a=False)
+        a = self.promotion_cast(a)
+        b = self.promotion_cast(b)
+        a, b = self.cast_operands(a=a, b=b, immutable_a=False)
         v = ArithmeticOp(name, a, b, op_type)
         return self.add_op(v)
 
